@@ -432,6 +432,31 @@ pub fn main_many(args: &[String]) {
             w.finalize().map_err(|e| ("valid-call-refused".to_string(), format!("finalize: {e:?}")))?;
             let bytes = w.into_raw();
             if mode == "roundtrip" {
+                // a COUNT of runs: two files written in 700 alternating pieces each (700 offsets per file in the index)
+                let mut w2 = ArchiveWriter::from_config(Vec::new(), archive::writer_config(&par)).map_err(|e| ("create-error".to_string(), format!("{e:?}")))?;
+                let (ia, ib) = (w2.start_file("runs-a").map_err(|e| ("valid-call-refused".to_string(), format!("{e:?}")))?,
+                                w2.start_file("runs-b").map_err(|e| ("valid-call-refused".to_string(), format!("{e:?}")))?);
+                let (mut ca, mut cb) = (vec![], vec![]);
+                for k in 0..700usize {
+                    let pa = archive::file_bytes(&par, 1, ca.len(), 1 + k % 5);
+                    let pb = archive::file_bytes(&par, 2, cb.len(), 2 + k % 3);
+                    w2.append_file_content(ia, pa.len() as u64, &pa[..]).map_err(|e| ("valid-call-refused".to_string(), format!("append a #{k}: {e:?}")))?;
+                    w2.append_file_content(ib, pb.len() as u64, &pb[..]).map_err(|e| ("valid-call-refused".to_string(), format!("append b #{k}: {e:?}")))?;
+                    ca.extend(pa);
+                    cb.extend(pb);
+                }
+                w2.end_file(ia).map_err(|e| ("valid-call-refused".to_string(), format!("{e:?}")))?;
+                w2.end_file(ib).map_err(|e| ("valid-call-refused".to_string(), format!("{e:?}")))?;
+                w2.finalize().map_err(|e| ("valid-call-refused".to_string(), format!("finalize: {e:?}")))?;
+                let mut rd2 = ArchiveReader::from_config(Cursor::new(w2.into_raw()), archive::reader_config(&par)).map_err(|e| ("open-error".to_string(), format!("runs: {e:?}")))?;
+                for (name, want) in [("runs-a", &ca), ("runs-b", &cb), ("runs-a", &ca)] {
+                    let mut got = vec![];
+                    let mut f = rd2.get_file(name.to_string()).map_err(|e| ("read-error".to_string(), format!("{name}: {e:?}")))?.ok_or(("list-mismatch".to_string(), name.to_string()))?;
+                    f.data.read_to_end(&mut got).map_err(|e| ("read-error".to_string(), format!("{name}: {e:?}")))?;
+                    if &got != want {
+                        return Err(("content-mismatch".into(), format!("{name}: 700 runs, {} of {} bytes, common prefix {}", got.len(), want.len(), crate::cells::common_prefix(&got, want))));
+                    }
+                }
                 let mut rd = ArchiveReader::from_config(Cursor::new(bytes), archive::reader_config(&par)).map_err(|e| ("open-error".to_string(), format!("{e:?}")))?;
                 let names: Vec<String> = rd.list_files().map_err(|e| ("list-error".to_string(), format!("{e:?}")))?.cloned().collect();
                 if names.len() != n {
